@@ -2,6 +2,7 @@
 random.Random instance that is passed in, so a (property, seed) pair replays
 exactly.  Cases are JSON-native (ints, floats, strings, lists, dicts)."""
 import itertools
+import os
 import math
 
 LABEL_POOL_A = ["A10", "A2", "zeta", "alpha", "B", "a", "A1", "A0", "M", "x11", "x2", "Q7", "q",
@@ -11,8 +12,25 @@ LABEL_POOL_C = ["C10", "C2", "roe", "CAP", "ri", "c", "C1", "C0", "zz", "aa", "K
                 "gamma", "D", "d", "C_1", "cost", "gain", "C"]
 
 
-def labels(rng, n, pool, default_prefix):
-    """Distinct labels whose sorted order differs from positional order (mostly)."""
+LABEL_KINDS_P = float(os.environ.get("SKC_LABEL_KINDS", "0.1"))
+
+
+def labels(rng, n, pool, default_prefix, kinds=True):
+    """Distinct labels whose sorted order differs from positional order (mostly).  A tenth of the time the labels are
+    not the usual strings: integers (a shuffled 0..n-1, so that labels and positions disagree; or unrelated, unsorted
+    integers), floats, or strings that look like numbers."""
+    if kinds and LABEL_KINDS_P and rng.random() < LABEL_KINDS_P:
+        kind = rng.choice(["int_positions", "int_other", "float", "numeric_strings"])
+        if kind == "int_positions":
+            ls = list(range(n))
+        elif kind == "int_other":
+            ls = [7 * i + 3 for i in range(n)]
+        elif kind == "float":
+            ls = [i + 0.5 for i in range(n)]
+        else:
+            ls = [str(2 * i + 1) for i in range(n)]
+        rng.shuffle(ls)
+        return ls
     mode = rng.random()
     if mode < 0.15:
         return [f"{default_prefix}{i}" for i in range(n)]
@@ -116,7 +134,7 @@ def inject_structure(rng, mtx, objs, p_dup=0.3, p_dom=0.4):
 
 
 def dm_case(rng, nmax=7, mmax=5, nmin=1, mmin=1, modes=VALUE_MODES, positive=False,
-            wmode=None, omode=None, structure=True, big=0.15, int_dtypes=0.0):
+            wmode=None, omode=None, structure=True, big=0.15, int_dtypes=0.0, label_kinds=True):
     n, m = shape(rng, nmax, mmax, nmin, mmin, big=big)
     mode = rng.choice(list(modes))
     mtx = values(rng, n, m, mode, positive=positive)
@@ -128,8 +146,8 @@ def dm_case(rng, nmax=7, mmax=5, nmin=1, mmin=1, modes=VALUE_MODES, positive=Fal
         "matrix": mtx,
         "objectives": objs,
         "weights": weights(rng, m, wmode),
-        "alternatives": labels(rng, n, LABEL_POOL_A, "A"),
-        "criteria": labels(rng, m, LABEL_POOL_C, "C"),
+        "alternatives": labels(rng, n, LABEL_POOL_A, "A", kinds=label_kinds in (True, "alternatives")),
+        "criteria": labels(rng, m, LABEL_POOL_C, "C", kinds=label_kinds is True),
         "mode": mode,
         "tags": tags,
     }
